@@ -81,7 +81,7 @@ CHECKS["C03"] = dict(
          "rejecting the first measure that differs or raises where it is defined; seeded random graphs of 6..10 nodes are validated the "
          "same way.",
     note="Defined() withdraws the clause where the library only forwards an igraph convention (closeness/average path length on "
-         "disconnected or directed graphs); Newman's random-walk betweenness is defined electrically (spanning-tree determinants, Defs_RandomWalk) on connected undirected graphs of up to 6 nodes and by closed laws on trees / complete graphs beyond; Arenas' variant and the n.s.i. random-walk measures have no definition (C01/C02/C04/C06 only); eigenvector "
+         "disconnected or directed graphs); Newman's random-walk betweenness is defined electrically (spanning-tree determinants, Defs_RandomWalk) on connected undirected graphs of up to 6 nodes and by closed laws on trees / complete graphs beyond; Arenas' variant is defined by expected arrivals (adjugates of the integer absorbing matrices) up to 5 nodes; the n.s.i. random-walk measures have no definition (C01/C02/C04/C06 only); eigenvector "
          "centrality and PageRank are decided as residual conditions.  Fixed point 10^-6, tolerance 4e-5.",
     ref="6/C03")
 
@@ -315,7 +315,7 @@ EXT = {
 }
 
 
-EXT4 = {'C03': " Fourth round: Newman's random-walk betweenness against its electrical definition in exact integer arithmetic (number of spanning trees and Kirchhoff determinants; no matrix inverse, no grounded node) on every connected undirected graph of up to 6 nodes.", 'C01': ' Fourth round: component-wise tokens for joint / inter-system settings; there-and-back histories (a, b, a) with an effective middle step in the quick tier; the mode kept_threshold (data recomputed while a density-derived threshold is kept: undetermined, nothing observed) instead of disabled transitions; queries with arguments discovered from parameter names; geographic argument patterns and grid reports; CoupledClimateNetwork with link-attribute mutators and wrapper queries; the public embedding setter of Surrogates as a mutator.', 'C02': ' Fourth round: the single-network n.s.i. measures observed on the InteractingNetworks object AFTER its group measures; every failing site is named (a listed finding no longer hides another).', 'C04': " Fourth round: geographic argument patterns and the grid's own reports (coordinates, Euclidean and angular distances) under renumbering; a second pass over the spatial / resistive views.", 'C05': ' Fourth round: a USED network (every link-weighted measure asked once), its copy and its file.', 'C08': ' Fourth round: the histograms are unchanged by resample_diagline_dist / resample_vertline_dist (which return the requested number of lines).', 'C09': ' Fourth round: there-and-back histories through the data-recomputing setters (mode kept_threshold); DensityMiss and QuantileDef (the selected threshold is a value of the current similarity matrix) for the data-driven networks.', 'C10': " Fourth round: objects with a history (a larger maximal lag asked before, the object's own arrays symmetrised, the question repeated: Repeatable).", 'C11': ' Fourth round: link lengths of the coupled network given in two steps (other lengths asked once first).', 'C13': ' Fourth round: decimal time axis (1950 + (t+1)/24, not representable in single precision); the exception of a window change is an observation.', 'C15': ' Fourth round: TwinWalkSM - the twin walk as a state machine whose draws are action parameters; every behaviour with at most three free draws is replayed on Surrogates.twin_surrogates with Python\'s random source scripted to these draws, and TLC requires the library\'s twins, exactly the scripted draws consumed and exactly the walk the draws determine (the LAST option is the own successor); the public embedding setter between two equal twin_surrogates calls; OriginalStates over the embedded states.', 'C16': ' Fourth round: significance levels (shuffle / analytic) asked before the analyses on half of the objects; column-major event matrices.', 'C17': ' Fourth round: chains of three degree-preserving randomisations (geographical models, global rewiring) on one spatial network.', 'C19': " Fourth round: the chunk-partition invariant for EVERY N and max_parts discharged by Apalache (Apa_Chunks, with a refuted negative control); hub-in-the-middle components of >= 21 nodes (sweep of hub positions); the docstring's spelling of the stopping mode as an argument variant."}
+EXT4 = {'C03': " Fourth round: Newman's random-walk betweenness against its electrical definition in exact integer arithmetic (number of spanning trees and Kirchhoff determinants; no matrix inverse, no grounded node) on every connected undirected graph of up to 6 nodes; Arenas-type random-walk betweenness as expected arrivals summed over all targets and sources, (1 - P(i))^-1 P(i) = M(i)^-1 A(i) with the integer absorbing matrix M(i), up to 5 nodes.", 'C01': ' Fourth round: component-wise tokens for joint / inter-system settings; there-and-back histories (a, b, a) with an effective middle step in the quick tier; the mode kept_threshold (data recomputed while a density-derived threshold is kept: undetermined, nothing observed) instead of disabled transitions; queries with arguments discovered from parameter names; geographic argument patterns and grid reports; CoupledClimateNetwork with link-attribute mutators and wrapper queries; the public embedding setter of Surrogates as a mutator.', 'C02': ' Fourth round: the single-network n.s.i. measures observed on the InteractingNetworks object AFTER its group measures; every failing site is named (a listed finding no longer hides another).', 'C04': " Fourth round: geographic argument patterns and the grid's own reports (coordinates, Euclidean and angular distances) under renumbering; a second pass over the spatial / resistive views.", 'C05': ' Fourth round: a USED network (every link-weighted measure asked once), its copy and its file.', 'C08': ' Fourth round: the histograms are unchanged by resample_diagline_dist / resample_vertline_dist (which return the requested number of lines).', 'C09': ' Fourth round: there-and-back histories through the data-recomputing setters (mode kept_threshold); DensityMiss and QuantileDef (the selected threshold is a value of the current similarity matrix) for the data-driven networks.', 'C10': " Fourth round: objects with a history (a larger maximal lag asked before, the object's own arrays symmetrised, the question repeated: Repeatable).", 'C11': ' Fourth round: link lengths of the coupled network given in two steps (other lengths asked once first).', 'C13': ' Fourth round: decimal time axis (1950 + (t+1)/24, not representable in single precision); the exception of a window change is an observation.', 'C15': ' Fourth round: TwinWalkSM - the twin walk as a state machine whose draws are action parameters; every behaviour with at most three free draws is replayed on Surrogates.twin_surrogates with Python\'s random source scripted to these draws, and TLC requires the library\'s twins, exactly the scripted draws consumed and exactly the walk the draws determine (the LAST option is the own successor); the public embedding setter between two equal twin_surrogates calls; OriginalStates over the embedded states.', 'C16': ' Fourth round: significance levels (shuffle / analytic) asked before the analyses on half of the objects; column-major event matrices.', 'C17': ' Fourth round: chains of three degree-preserving randomisations (geographical models, global rewiring) on one spatial network.', 'C19': " Fourth round: the chunk-partition invariant for EVERY N and max_parts discharged by Apalache (Apa_Chunks, with a refuted negative control); hub-in-the-middle components of >= 21 nodes (sweep of hub positions); the docstring's spelling of the stopping mode as an argument variant."}
 
 
 def main():
